@@ -26,6 +26,8 @@ BACKENDS = FFT + NTT
 FUSED = ["auto_add", "auto_add_assign", "auto_sub", "auto_sub_assign", "auto_subneg", "auto_subneg_assign"]
 AUTO = ["auto", "auto_assign"] + FUSED
 GLWE_OPS = ["ks", "ks_assign"] + AUTO + ["trace", "trace_assign"]
+PACK = ["pack", "packer"]
+MAT = ["gglwe_ks", "gglwe_ks_assign", "atk_auto", "atk_auto_assign"]
 STALE_KEY = "poulpy-core/src/automorphism/glwe_ct.rs:glwe_automorphism_{add,sub,sub_negate}{,_assign}:res_dft-not-zeroed:dsize>=3"
 
 
@@ -151,7 +153,12 @@ def parse_answer(line):
 def harness_line(cid, c, be, dirty):
     keys = ["op", "n", "bin", "bkey", "bout", "kin", "kkey", "kout", "rin", "rout", "dsize", "dnum", "seed", "cls", "p", "skip",
             "idx", "nlin", "nlout"]
-    return f"{cid} " + " ".join(f"{k}={c[k]}" for k in keys) + f" be={be} dirty={dirty}"
+    extra = ""
+    if c["op"] in PACK:
+        extra = f" slots={','.join(str(x) for x in c['slots']) or '-'} lgap={c['lgap']}"
+    if c["op"] in MAT:
+        extra = f" r0={c['r0']} adnum={c['adnum']} adsize={c['adsize']} rdnum={c['rdnum']} pa={c['pa']}"
+    return f"{cid} " + " ".join(f"{k}={c[k]}" for k in keys) + extra + f" be={be} dirty={dirty}"
 
 
 def sout_of(c):
@@ -161,7 +168,7 @@ def sout_of(c):
 def model_line(cid, c, ans, big):
     return (f"{cid} ks op={c['op']} big={big} n={c['n']} bin={c['bin']} bkey={c['bkey']} bout={c['bout']} sout={sout_of(c)} "
             f"rin={c['rin']} rout={c['rout']} dsize={c['dsize']} skip={c['skip']} idx={c['idx']} nlin={c['nlin']} nlout={c['nlout']} "
-            f"dft0={(cid % 3) * 12345} "
+            f"dft0={(cid % 3) * 12345} lgap={c.get('lgap', 0)} r0={c.get('r0', 0)} adsize={c.get('adsize', 0)} rdnum={c.get('rdnum', 0)} "
             f"keys={ans['keys']} a={ans['a']}")
 
 
@@ -273,6 +280,115 @@ def generate(ctx, rng):
     for c in cases:
         if c["op"] == "extract":
             c["bout"] = c["bin"]
+    cases += generate_pack(ctx, rng)
+    cases += generate_mat(ctx, rng)
+    return cases
+
+
+def generate_mat(ctx, rng):
+    """key-switching of switching keys and automorphism of automorphism keys (loops of the GLWE forms over the rows)"""
+    quick = ctx.tier == "quick"
+    cases = []
+    for k in range(36 if quick else 600):
+        n = [8, 16, 32][k % 3]
+        op = MAT[k % 4]
+        c = shape(rng, "ks", n, ntt_only=(k % 9 == 8), force={"dsize": [1, 2, 3, 1][k % 4]})
+        c["op"] = op
+        # the GGLWE operand A lives in the "input" layout (bin, kin): kin must hold adnum*adsize limbs and more than adsize
+        adsize = rng.choice([1, 1, 2])
+        adnum = rng.range(1, 3)
+        sa = adnum * adsize + rng.range(0, 1)
+        if sa <= adsize:
+            sa = adsize + 1
+        c["kin"] = sa * c["bin"]
+        c["adsize"], c["adnum"], c["rdnum"] = adsize, adnum, rng.range(1, adnum)
+        c["r0"] = rng.range(1, 2)
+        c["bout"] = c["bin"]                       # assert_eq!(res.base2k(), a.base2k())
+        c["kout"] = max(c["kout"], (c["rdnum"] * adsize + 1) * c["bin"]) if op.endswith("_ks") or op == "atk_auto" else c["kout"]
+        if ceil_div(c["kout"], c["bout"]) > 6:
+            c["kout"] = 6 * c["bout"]
+        # the key must cover the operand in its own radix
+        a_size = ceil_div(sa * c["bin"], c["bkey"])
+        c["dnum"] = max(1, ceil_div(a_size, c["dsize"]) + rng.range(-1, 1))
+        skey = c["dnum"] * c["dsize"] + rng.choice([0, 1, 2])
+        if skey <= c["dsize"]:
+            skey = c["dsize"] + 1
+        c["kkey"] = skey * c["bkey"]
+        if op.startswith("atk"):
+            c["rout"] = c["rin"]
+            c["r0"] = c["rin"]
+            c["pa"] = 2 * rng.below(n) + 1
+            c["p"] = rng.choice([-1, 2 * rng.below(n) + 1, -(2 * rng.below(n) + 1)])
+        else:
+            c["pa"] = 1
+        if op.endswith("_assign"):
+            c["rdnum"] = adnum
+            c["kout"] = c["kin"]
+            c["rout"] = c["rin"]
+        c["cls"] = "enc"
+        cases.append(c)
+    return cases
+
+
+def pack_shape(rng, op, n, slots, lgap, ntt_only=False):
+    """small key / ciphertext shapes for the packing trees (many key-switches per case)"""
+    c = shape(rng, "trace", n, ntt_only=ntt_only, force={"dsize": rng.choice([1, 1, 2, 3])})
+    c["op"] = op
+    c["rin"] = c["rout"] = rng.choice([1, 1, 2])
+    c["slots"], c["lgap"] = list(slots), lgap
+    c["cls"] = rng.choice(["raw", "enc", "enc", "ext", "alt"])
+    if op == "packer":                       # accumulators and result share the layout of the inputs
+        c["bout"], c["kout"] = c["bin"], ceil_div(c["kin"], c["bin"]) * c["bin"]
+    return c
+
+
+def subsets_of(k):
+    return [[i for i in range(k) if (m >> i) & 1] for m in range(1, 1 << k)]
+
+
+def generate_pack(ctx, rng):
+    """every subset of slots for the configurations with <= 8 slots, random subsets beyond"""
+    quick = ctx.tier == "quick"
+    cases = []
+    for n in ([8] if quick else [8, 16, 32]):
+        logn = n.bit_length() - 1
+        for L in range(0, 4):                # 2^L slots, gap = n / 2^L
+            if L > logn:
+                continue
+            lgap = logn - L
+            gap = 1 << lgap
+            for sub in subsets_of(1 << L):
+                cases.append(pack_shape(rng, "pack", n, [j * gap for j in sub], lgap))
+    # random subsets beyond 8 slots, stray (non-slot) indices, NTT-only radices
+    for k in range(16 if quick else 400):
+        n = [16, 32, 16][k % 3]
+        logn = n.bit_length() - 1
+        lgap = rng.below(logn - 2) if k % 4 else rng.below(logn + 1)
+        gap = 1 << lgap
+        cnt = n // gap
+        sub = [j * gap for j in range(cnt) if rng.chance(1, 3 if k % 2 else 2)] or [rng.below(cnt) * gap]
+        if k % 6 == 5 and gap > 1:
+            sub = sorted(set(sub + [rng.below(n - 1) | 1]))          # an index that is not a slot: ignored by glwe_pack
+        if k % 12 == 11 and gap > 1:
+            sub = [1]                                                   # no slot at all: a.get(&0).unwrap() panics
+        cases.append(pack_shape(rng, "pack", n, sub, lgap, ntt_only=(k % 8 == 7)))
+    # the streaming packer: arrivals 0..n/2^lb-1, `slots` = the arrivals that carry a ciphertext
+    for n in ([8] if quick else [8, 16]):
+        logn = n.bit_length() - 1
+        for lb in range(0, logn):
+            cnt = n >> lb
+            subs = subsets_of(cnt) if cnt <= 8 else []
+            if quick and len(subs) > 24:
+                subs = [subs[rng.below(len(subs))] for _ in range(24)] + [subs[-1], subs[0]]
+            for sub in subs:
+                cases.append(pack_shape(rng, "packer", n, sub, lb))
+    for k in range(8 if quick else 120):
+        n = [16, 32][k % 2]
+        logn = n.bit_length() - 1
+        lb = rng.below(logn)
+        cnt = n >> lb
+        sub = [j for j in range(cnt) if rng.chance(1, 2)] or [rng.below(cnt)]
+        cases.append(pack_shape(rng, "packer", n, sub, lb, ntt_only=(k % 8 == 7)))
     return cases
 
 
@@ -302,7 +418,7 @@ def key_errors(c, p, rows, sk_in, sk_out):
     For an automorphism key the rows are encrypted under sigma_{p^-1}(s)."""
     n, b, dsize, rin = c["n"], c["bkey"], c["dsize"], c["rin"]
     tgt = sk_out
-    if c["op"] in AUTO or c["op"].startswith("trace"):
+    if c["op"] in AUTO or c["op"].startswith("trace") or c["op"] in PACK:
         ginv = inv_mod(p, 2 * n)
         tgt = [aut(s, ginv) for s in sk_out]
     size = len(rows[0][0])
@@ -334,7 +450,7 @@ def ks_bound(c, D, emax_num, emax_bits, sk_in, sk_out, a_bits_in):
     tot += rin * dnum * n * (1 << (dsize * b)) * ((emax_num << (D - emax_bits)) if D >= emax_bits else (emax_num >> (emax_bits - D)) + 1)
     # conversion of the input into the key radix (one unit of a_conv's last limb per column)
     a_size = ceil_div(a_bits_in, b)
-    if c["bin"] != c["bkey"] or c["op"].startswith("trace"):
+    if c["bin"] != c["bkey"] or c["op"].startswith("trace") or c["op"] in PACK:
         tot += (1 + l1_in) * u(b * a_size) * 2
     # limbs of the mask beyond dnum*dsize and of the body beyond the key size are dropped
     L = min(a_size, dnum * dsize)
@@ -426,12 +542,133 @@ def expected_and_bound(c, ans):
     return pout, exp, D, B, idxs, worst
 
 
+def p_slots(s):
+    out = []
+    if s == "-" or not s:
+        return out
+    for part in s.split("@"):
+        j, body = part.split(":", 1)
+        out.append((int(j), p_ct(body)))
+    return out
+
+
+def bitrev_offset(k, n, lb):
+    """rotation received by the k-th arrival of the streaming packer: sum_b bit_b(k) * n / 2^(lb+1+b)"""
+    off, b = 0, 0
+    while k >> b:
+        if (k >> b) & 1:
+            off += n >> (lb + 1 + b)
+        b += 1
+    return off
+
+
+def pack_expected_and_bound(c, ans):
+    """ring packing: glwe_pack puts the constant coefficient of the phase of input J (J a multiple of the gap) on
+    coefficient J and nothing anywhere else; the streaming packer puts the coefficients m*n/2^lb of its k-th arrival
+    on m*n/2^lb + bitrev_offset(k)."""
+    n, op = c["n"], c["op"]
+    logn = n.bit_length() - 1
+    keys = p_keys(ans["keys"])
+    ins = p_slots(ans["a"])
+    res_cols = p_ct(ans["res"])
+    sk = [p_poly(x) for x in ans["skin"].split(";")]
+    bin_, bout = c["bin"], c["bout"]
+    pout, bits_out = phase_num(res_cols, sk, bout, n)
+    skey = ceil_div(c["kkey"], c["bkey"])
+    a_bits = len(ins[0][1][0]) * bin_ if ins else bin_
+    D = max(a_bits, bits_out, c["bkey"] * skey) + 8
+    pout = rescale(pout, bits_out, D)
+    exp = [0] * n
+    if op == "pack":
+        gap = 1 << c["lgap"]
+        L = logn - c["lgap"]
+        for (J, cols) in ins:
+            if J % gap:
+                continue
+            ph, bits = phase_num(cols, sk, bin_, n)
+            exp[J] += ph[0] << (D - bits)
+    else:
+        lb = c["lgap"]
+        L = logn - lb
+        M = n >> lb
+        for (k, cols) in ins:
+            ph, bits = phase_num(cols, sk, bin_, n)
+            proj = [(x << (D - bits)) if t % M == 0 else 0 for t, x in enumerate(ph)]
+            exp = padd(exp, rot(proj, bitrev_offset(k, n, lb)))
+    worst = 0
+    for (p, rows) in keys:
+        e, _ = key_errors(c, p, rows, sk, sk)
+        worst = max(worst, e)
+    eb = c["bkey"] * skey
+    l1 = sum(sum(abs(x) for x in s) for s in sk)
+    c_in = dict(c, op="auto", bout=bin_, kout=a_bits)
+    unit = (ks_bound(c_in, D, worst, eb, sk, sk, a_bits) + ks_bound(dict(c, op="auto"), D, worst, eb, sk, sk, max(a_bits, bits_out))
+            + 8 * (1 + l1) * (max(1, (1 << D) >> a_bits) + max(1, (1 << D) >> bits_out)))
+    nops = len(ins) * L + logn + 2
+    return pout, exp, D, nops * unit, list(range(n)), worst
+
+
+def s_ct(cols):
+    return ";".join("|".join(",".join(str(x) for x in l) for l in col) for col in cols)
+
+
+def rust_rem(a, m):
+    r = abs(a) % m
+    return -r if a < 0 else r
+
+
+def mat_oracle(c, ans):
+    """every ciphertext of the result matrix is the key-switch of the corresponding ciphertext of the operand:
+    the `ks` oracle row by row (for the automorphism of an automorphism key: after conjugation by sigma_pa)"""
+    n, op = c["n"], c["op"]
+    a_txt, r_txt = ans["a"], ans["res"]
+    if r_txt.startswith("panic:"):
+        return None
+    if op.startswith("atk"):
+        pa, a_body = a_txt.split(":", 1)
+        pr, r_body = r_txt.split(":", 1)
+        pa, pr = int(pa), int(pr)
+        q = int(ans["keys"].split(":", 1)[0])
+        if pr != rust_rem(pa * q, 2 * n):
+            return f"Galois element of the result is {pr}, expected {rust_rem(pa * q, 2 * n)}"
+    else:
+        a_body, r_body, pa, q = a_txt, r_txt, 1, 1
+    rows_in = a_body.split("/")
+    rows_out = r_body.split("/")
+    sk = [p_poly(x) for x in ans["skin"].split(";")]
+    worst_msg = None
+    dev_max = None
+    for idx, ro in enumerate(rows_out):
+        ci = p_ct(rows_in[idx])
+        co = p_ct(ro)
+        if op.startswith("atk"):
+            ci = [[aut(l, pa) for l in col] for col in ci]
+            co = [[aut(l, pa) for l in col] for col in co]
+            sub = {"skin": ans["skin"], "skout": ";".join(",".join(str(x) for x in aut(s_, inv_mod(q, 2 * n))) for s_ in sk)}
+        else:
+            sub = {"skin": ans["skin"], "skout": ans["skout"]}
+        sub.update({"keys": "0:" + ans["keys"].split(":", 1)[1], "a": s_ct(ci), "res": s_ct(co)})
+        cc = dict(c, op="ks", rout=len(co) - 1)
+        try:
+            pout, exp, D, B, idxs, worst = expected_and_bound(cc, sub)
+        except OracleFail as e:
+            return f"oracle: {e}"
+        dev = max(abs(centered(pout[t] - exp[t], D)) for t in idxs)
+        if dev > B:
+            return f"row {idx}: phase deviates by 2^{dev.bit_length() - D} > bound 2^{B.bit_length() - D}"
+        c["_dev_bits"] = (dev.bit_length() - D) if dev else None
+        c["_bound_bits"] = B.bit_length() - D
+    return None
+
+
 def oracle(c, ans):
     """None if the implementation's own output satisfies the property, else a description"""
-    if c["op"] == "extract":
+    if c["op"] == "extract" or ans["res"].startswith("panic:"):
         return None
+    if c["op"] in MAT:
+        return mat_oracle(c, ans)
     try:
-        r = expected_and_bound(c, ans)
+        r = pack_expected_and_bound(c, ans) if c["op"] in PACK else expected_and_bound(c, ans)
     except OracleFail as e:
         return f"oracle: {e}"
     if r is None:
@@ -450,6 +687,13 @@ def class_key(c):
     rel = lambda x, y: "=" if x == y else ("<" if x < y else ">")
     a_size = ceil_div(ceil_div(c["kin"], c["bin"]) * c["bin"], c["bkey"])
     needed = ceil_div(a_size, c["dsize"])
+    if c["op"] in MAT:
+        return (c["op"], c["n"], c["rin"], c["rout"], c["r0"], c["dsize"], c["adsize"], c["adnum"], c["rdnum"], rel(c["bin"], c["bkey"]),
+                c["bkey"] > 17, rel(c["kout"], c["kin"]))
+    if c["op"] in PACK:
+        cnt = c["n"] >> c["lgap"]
+        return (c["op"], c["n"], c["lgap"], tuple(c["slots"]) if cnt <= 8 else len(c["slots"]), c["rin"], c["dsize"], c["cls"], c["bkey"] > 17,
+                rel(c["bin"], c["bkey"]), rel(c["bout"], c["bkey"]))
     return (c["op"], c["n"], c["rin"], c["rout"], c["dsize"], a_size % c["dsize"] != 0, rel(c["dnum"], needed), rel(c["bin"], c["bkey"]),
             rel(c["bout"], c["bkey"]), rel(c["kout"], c["kin"]), c["cls"], c["bkey"] > 17)
 
@@ -573,6 +817,12 @@ def run(ctx):
         def bump(k):
             sh[k] = sh.get(k, 0) + 1
         for c in cases:
+            if c["op"] in PACK:
+                bump(f"{c['op']}: N={c['n']} lgap={c['lgap']} slots={len(c['slots'])}")
+                continue
+            if c["op"] in MAT:
+                bump(f"{c['op']}: dsize={c['dsize']}")
+                continue
             ck = class_key(c)
             bump(f"dsize={c['dsize']}")
             bump("a_size%dsize!=0" if ck[5] else "a_size%dsize==0")
